@@ -72,4 +72,14 @@ theorem C18_exchangeAll_error (s : Proto) (k : Kind) (capture : Bool) (acc : Lis
     (s.exchangeAllLoop k capture acc (pre.map .ok ++ .error (.other t) :: post)).2 = .error (.interface t) :=
   Ross.exchangeAllLoop_error s k capture acc pre t post
 
+/-! non-vacuity (kernel-evaluated): device 5 sends a request to device 9 and waits for an ack: a queued ack for another
+device is skipped, the first ack addressed to device 5 is returned, the one after it stays queued; the request went
+out once and the wait closure ran once -/
+example :
+    let pad : Pad := ⟨0, 0, 0⟩
+    let s0 := Proto.init 5 [.ok ⟨false, 9, [0, 3, 0, 7]⟩, .ok (encode pad (.ack 5 7)), .ok (encode pad (.ack 5 8))] []
+    let r := s0.exchange ⟨false, 9, [1]⟩ .ack false
+    ((match r.2 with | .ok e => e == .ack 5 7 | .error _ => false), r.1.rxQueue.length, r.1.log) =
+      (true, 1, [.tx ⟨false, 9, [1]⟩ true, .wait]) := by decide
+
 end Ross.Props
